@@ -85,10 +85,11 @@ pub fn reserve_regions<E: Entry>(ctx: &mut Ctx, live: &mut Live<E>, sources: &[&
 
 pub fn reserve_items<E: Entry>(ctx: &mut Ctx, live: &mut Live<E>, vals: &[E::V]) -> bool {
     let r = &mut live.r;
-    match panics::catch(|| E::reserve_items(r, vals)) {
+    let which = ctx.rng.below(E::reserve_form_count().max(1));
+    match panics::catch(|| E::reserve_items_form(r, vals, which)) {
         Ok(done) => {
             if done {
-                ctx.log(format!("{}.reserve_items({} values)", live.tag, vals.len()));
+                ctx.log(format!("{}.reserve_items[form {which}]({} values)", live.tag, vals.len()));
             }
             true
         }
